@@ -15,3 +15,64 @@ package ast_python
 //@ inline
 //@ loop 1 invariant i >= 0
 //@ loop 1 invariant forall k int :: {nodes[k]} 0 <= k && k < len(nodes) ==> nodes[k] != nil
+
+// ---- what each callback records (C20: every class, method, function and import is listed once under its own name)
+
+// a class definition starts a fresh entry named after the class; the enclosing entry is kept for later; nothing is listed yet
+//@ method PythonIdentListener.EnterClassdef
+//@ modifies currentDataStruct
+//@ modifies enclosingDataStructs
+//@ modifies hasEnterMember
+//@ ensures currentDataStruct != nil && (*currentDataStruct).NodeName == GetText(Child(ctx, "name"))
+//@ ensures len((*currentDataStruct).Functions) == 0
+//@ ensures len(enclosingDataStructs) == old(len(enclosingDataStructs)) + 1 && enclosingDataStructs[len(enclosingDataStructs) - 1] == old(currentDataStruct)
+//@ ensures (*currentCodeFile).DataStructures == old((*currentCodeFile).DataStructures) && (*currentCodeFile).Members == old((*currentCodeFile).Members) && (*currentCodeFile).Imports == old((*currentCodeFile).Imports)
+
+// the end of a class definition lists the entry exactly once and resumes the enclosing one
+//@ method PythonIdentListener.ExitClassdef
+//@ modifies currentDataStruct
+//@ modifies enclosingDataStructs
+//@ modifies hasEnterMember
+//@ modifies *currentCodeFile
+//@ ensures old(currentDataStruct) != nil ==> len((*currentCodeFile).DataStructures) == old(len((*currentCodeFile).DataStructures)) + 1
+//@ ensures old(currentDataStruct) != nil ==> (*currentCodeFile).DataStructures[len((*currentCodeFile).DataStructures) - 1] == old(*currentDataStruct)
+//@ ensures old(currentDataStruct) != nil ==> Extends((*currentCodeFile).DataStructures, old((*currentCodeFile).DataStructures), 1)
+//@ ensures old(currentDataStruct) == nil ==> (*currentCodeFile).DataStructures == old((*currentCodeFile).DataStructures)
+//@ ensures old(len(enclosingDataStructs)) > 0 ==> currentDataStruct == old(enclosingDataStructs[len(enclosingDataStructs) - 1]) && len(enclosingDataStructs) == old(len(enclosingDataStructs)) - 1
+//@ ensures old(len(enclosingDataStructs)) == 0 ==> currentDataStruct == nil
+//@ ensures (*currentCodeFile).Members == old((*currentCodeFile).Members) && (*currentCodeFile).Imports == old((*currentCodeFile).Imports)
+
+// a function definition adds exactly one function of that name: to the class being read, or else to the module
+//@ method PythonIdentListener.EnterFuncdef
+//@ requires currentDataStruct != nil ==> Allocated(currentDataStruct)
+//@ modifies hasEnterMember
+//@ modifies *currentCodeFile
+//@ modifies *currentDataStruct
+//@ ensures old(currentDataStruct) != nil ==> len((*currentDataStruct).Functions) == old(len((*currentDataStruct).Functions)) + 1 &&
+//@     (*currentDataStruct).Functions[len((*currentDataStruct).Functions) - 1].Name == GetText(Child(ctx, "name")) &&
+//@     Extends((*currentDataStruct).Functions, old((*currentDataStruct).Functions), 1) &&
+//@     (*currentCodeFile).Members == old((*currentCodeFile).Members)
+//@ ensures old(currentDataStruct) == nil ==> len((*currentCodeFile).Members) == old(len((*currentCodeFile).Members)) + 1 &&
+//@     (*currentCodeFile).Members[len((*currentCodeFile).Members) - 1].Name == GetText(Child(ctx, "name")) &&
+//@     len((*currentCodeFile).Members[len((*currentCodeFile).Members) - 1].FunctionNodes) == 1 &&
+//@     (*currentCodeFile).Members[len((*currentCodeFile).Members) - 1].FunctionNodes[0].Name == GetText(Child(ctx, "name")) &&
+//@     Extends((*currentCodeFile).Members, old((*currentCodeFile).Members), 1)
+//@ ensures (*currentCodeFile).DataStructures == old((*currentCodeFile).DataStructures) && (*currentCodeFile).Imports == old((*currentCodeFile).Imports)
+
+// an import statement adds exactly one import whose source is its first dotted name
+//@ method PythonIdentListener.EnterImport_stmt
+//@ modifies *currentCodeFile
+//@ ensures len((*currentCodeFile).Imports) == old(len((*currentCodeFile).Imports)) + 1 &&
+//@     (*currentCodeFile).Imports[len((*currentCodeFile).Imports) - 1].Source == GetText(Child(ChildN(Child(ctx, "dotted_as_names"), "dotted_as_name", 0), "dotted_name")) &&
+//@     Extends((*currentCodeFile).Imports, old((*currentCodeFile).Imports), 1)
+//@ ensures (*currentCodeFile).DataStructures == old((*currentCodeFile).DataStructures) && (*currentCodeFile).Members == old((*currentCodeFile).Members)
+//@ loop 1 invariant (*codeImport).Source == GetText(Child(ChildN(Child(ctx, "dotted_as_names"), "dotted_as_name", 0), "dotted_name"))
+//@ loop 1 invariant *currentCodeFile == old(*currentCodeFile)
+
+// a from-import adds exactly one import whose source is the module named after `from`
+//@ method PythonIdentListener.EnterFrom_stmt
+//@ modifies *currentCodeFile
+//@ ensures len((*currentCodeFile).Imports) == old(len((*currentCodeFile).Imports)) + 1 &&
+//@     (*currentCodeFile).Imports[len((*currentCodeFile).Imports) - 1].Source == GetText(Child(ctx, "from_stmt_source")) &&
+//@     Extends((*currentCodeFile).Imports, old((*currentCodeFile).Imports), 1)
+//@ ensures (*currentCodeFile).DataStructures == old((*currentCodeFile).DataStructures) && (*currentCodeFile).Members == old((*currentCodeFile).Members)
